@@ -111,7 +111,7 @@ fn one_king_game() -> (sym::Mailbox, Game, u8) {
 }
 
 //@ obligation: C01.orchestrate.captures
-//@ property: C01 C10
+//@ property: C01
 //@ domain: complete
 //@ functions: chess/movegen/gen.rs::generate_captures
 //@ timeout: 2400
@@ -160,7 +160,7 @@ fn vk_c01_orchestrate_captures() {
 }
 
 //@ obligation: C01.orchestrate.quiets
-//@ property: C01 C10
+//@ property: C01
 //@ domain: complete
 //@ functions: chess/movegen/gen.rs::generate_quiets
 //@ timeout: 2400
@@ -206,7 +206,7 @@ fn vk_c01_orchestrate_quiets() {
 }
 
 //@ obligation: C01.orchestrate.legal
-//@ property: C01 C10
+//@ property: C01
 //@ domain: complete
 //@ functions: chess/movegen/gen.rs::generate_legal_moves
 //@ timeout: 900
@@ -227,7 +227,7 @@ fn vk_c01_orchestrate_legal() {
 }
 
 //@ obligation: C01.canary.orchestrate
-//@ property: C01 C10
+//@ property: C01
 //@ canary: true
 //@ timeout: 2400
 //@ mem_gb: 8
